@@ -28,32 +28,74 @@ func DefaultComparePreRelease[T1, T2 constraint.ParserInput](a T1, b T2) int {
 	} else if lb == 0 {
 		return -1
 	}
-	if la > lb {
-		return comparePreRelease(b, a)
-	}
-	return -comparePreRelease(a, b)
+	return comparePreRelease(string(a), string(b))
 }
 
-func comparePreRelease[T1, T2 constraint.ParserInput](shorter T1, longer T2) int {
-	s, l := string(shorter), string(longer)
-	longerRunes := []rune(l)
-	for i, sr := range s {
-		if lr := longerRunes[i]; sr != lr {
-			return comparePreReleaseSuffix(s[i:], l[i:])
+// comparePreRelease compares dot separated identifiers from left to right.
+func comparePreRelease(a, b string) int {
+	for {
+		ai, arest, amore := strings.Cut(a, ".")
+		bi, brest, bmore := strings.Cut(b, ".")
+		if c := compareIdentifier(ai, bi); c != 0 {
+			return c
+		}
+		if !amore || !bmore {
+			// a larger set of identifiers has a higher precedence
+			if amore {
+				return 1
+			}
+			if bmore {
+				return -1
+			}
+			return 0
+		}
+		a, b = arest, brest
+	}
+}
+
+func compareIdentifier(a, b string) int {
+	an, bn := isNumeric(a), isNumeric(b)
+	if an != bn {
+		// numeric identifiers always have lower precedence than non-numeric identifiers
+		if an {
+			return -1
+		}
+		return 1
+	}
+	if an {
+		a, b = strings.TrimLeft(a, "0"), strings.TrimLeft(b, "0")
+		if len(a) != len(b) {
+			if len(a) < len(b) {
+				return -1
+			}
+			return 1
+		}
+		return strings.Compare(a, b)
+	}
+	for i := 0; i < len(a) && i < len(b); i++ {
+		if a[i] != b[i] {
+			return comparePreReleaseSuffix(a[i:], b[i:])
 		}
 	}
-	if len(s) == len(l) {
+	if len(a) == len(b) {
 		return 0
+	}
+	if len(a) < len(b) {
+		return -1
 	}
 	return 1
 }
 
-func comparePreReleaseSuffix(shorter string, longer string) int {
-	if digitsOrEmpty.MatchString(shorter) && digitsOrEmpty.MatchString(longer) {
-		shorter = strings.TrimLeft(shorter, "0")
-		longer = strings.TrimLeft(longer, "0")
+func isNumeric(s string) bool {
+	return s != "" && digitsOrEmpty.MatchString(s)
+}
+
+func comparePreReleaseSuffix(a string, b string) int {
+	if digitsOrEmpty.MatchString(a) && digitsOrEmpty.MatchString(b) {
+		a = strings.TrimLeft(a, "0")
+		b = strings.TrimLeft(b, "0")
 	}
-	return -strings.Compare(shorter, longer)
+	return strings.Compare(a, b)
 }
 
 // CompareVersion compares passed versions.
